@@ -42,7 +42,9 @@ class NormalizationInfo:
                 new_truth_table.append([not value for value in tt])
             else:
                 negations.append(False)
-                new_truth_table.append(tt)
+                # rows are compared with each other later on: keep them all of one
+                # type, whatever sequence type the caller used.
+                new_truth_table.append(list(tt))
         self.negations = negations
         return new_truth_table
 
